@@ -107,6 +107,10 @@ fn io_parse_indices_forms() {
 // decision of the parser is constant, and CBMC decides parse_obj in 15 s to 5 min: the obligations below are bounded stand-ins
 // on single concrete inputs (kind B, never counted as proved), chosen to exercise the deferred bounds check, the index forms,
 // the layout clauses and the faithful reproduction of the face list.
+// Tried and dropped (one step up from concrete): "v 0 0 0 / v 1 0 0 / v 0 1 0 / f 1 2 X" with ONE symbolic byte X, asserting
+// Ok iff X in '1'..'3' and then face [0, 1, X - '1']: no verdict in 60 min.  The unwinding bounds below are the smallest that
+// cover each text (longest line + 2): under a mutation that makes a loop bound non-constant for CBMC (e.g. a filter() before
+// Mesh::new's collect()) the cost grows with the unwinding bound, and with 40 the seeded change C14c ended undecided.
 
 // @ob props=C14 tier=quick kind=B cfg=geom-std timeout=2400
 // @fn parse_obj ; parse_face ; parse_indices ; Mesh::new
@@ -135,7 +139,7 @@ fn vert_is(m: &Mesh<()>, k: usize, p: [f32; 3]) -> bool {
 // @clause for well-formed input the result has exactly the listed triangles, in file order, with one-based indices converted to zero-based (a face that names a vertex twice included), irrespective of comments, blank lines, indentation, index form and face/vertex order; exactly the listed vertices in file order; build() succeeds
 #[cfg(not(verif_skip_io_parse_obj_small_mesh_faithful))]
 #[kani::proof]
-#[kani::unwind(40)]
+#[kani::unwind(24)]
 fn io_parse_obj_small_mesh_faithful() {
     let src = *b"# m\n\nf 1 2 3\nv 0 0 0\n  v 1 0 0\nv 0 2 0\nvt 0 0\nvn 0 0 1\nf 2/1 3/1 3/1\nf 3//1 1//1 2//1\nf 1/1/1 3/1/1 2/1/1\n";
     let r = parse_obj(src);
@@ -155,7 +159,7 @@ fn io_parse_obj_small_mesh_faithful() {
 // @clause an out-of-range index in ANY face (not only the last) makes parse_obj return IndexOutOfBounds with that zero-based index instead of a builder whose build() would panic
 #[cfg(not(verif_skip_io_parse_obj_oob_in_earlier_face))]
 #[kani::proof]
-#[kani::unwind(40)]
+#[kani::unwind(12)]
 fn io_parse_obj_oob_in_earlier_face() {
     let r = parse_obj(*b"v 0 0 0\nf 1 1 5\nf 1 1 1\n");
     kani::cover!(true);
@@ -168,13 +172,29 @@ fn io_parse_obj_oob_in_earlier_face() {
 // @clause a zero-length normal is data, not an error: parse_obj neither panics nor rejects it (normals are parsed but not returned)
 #[cfg(not(verif_skip_io_parse_obj_zero_normal))]
 #[kani::proof]
-#[kani::unwind(40)]
+#[kani::unwind(20)]
 fn io_parse_obj_zero_normal() {
     let r = parse_obj(*b"v 0 0 0\nvn 0 0 0\nf 1//1 1//1 1//1\n");
     kani::cover!(true);
     assert!(r.is_ok());
     if let Ok(b) = r {
         assert!(b.mesh.faces.len() == 1 && b.mesh.verts.len() == 1);
+    }
+}
+
+// @ob props=C14 tier=quick kind=B cfg=geom-std timeout=1200
+// @fn parse_obj ; parse_face ; Mesh::new
+// @bound one concrete two-line text: one vertex and the face "f 1 1 1" (unwinding bound 10: no line is longer than 8 bytes)
+// @clause exactly the listed triangles: a face that names the same vertex three times is kept as [0, 0, 0] (zero area is not an error and not a reason to drop it)
+#[cfg(not(verif_skip_io_parse_obj_degenerate_face_kept))]
+#[kani::proof]
+#[kani::unwind(10)]
+fn io_parse_obj_degenerate_face_kept() {
+    let r = parse_obj(*b"v 0 0 0\nf 1 1 1\n");
+    kani::cover!(true);
+    assert!(r.is_ok());
+    if let Ok(b) = r {
+        assert!(b.mesh.faces.len() == 1 && b.mesh.verts.len() == 1 && face_is(&b.mesh, 0, [0, 0, 0]));
     }
 }
 
